@@ -241,7 +241,10 @@ pub fn check(case: &Case, obs: &mut Obs, which: Which, ctx: &Ctx) -> CheckResult
     let mut rx = Receiver::new(n);
     let mut mons: Vec<LinkMon> = vec![LinkMon::default(); n];
     let mut broken = vec![false; n];
-    let mut replies: BinaryHeap<Reverse<(u64, u64, u8, Vec<u8>)>> = BinaryHeap::new();
+    // (due time, tie-break, address number, destination port, bytes): a reply is addressed to the socket the
+    // triggering datagram came from; if the uplink has a new socket by then the kernel would discard it
+    let mut replies: BinaryHeap<Reverse<(u64, u64, u8, u16, Vec<u8>)>> = BinaryHeap::new();
+    let mut last_port: Vec<u16> = vec![0; n];
     let mut reply_no = 0u64;
     let mut seq: u32 = 1;
     let mut counter: u32 = 0;
@@ -293,12 +296,16 @@ pub fn check(case: &Case, obs: &mut Obs, which: Which, ctx: &Ctx) -> CheckResult
                 {
                     return crate::rt::viol("stream-data-on-unregistered-link", format!("{}: link {l} was not connected before this step but put a {}-byte stream datagram on the wire at +{} ms", $what, e.bytes.len(), now - t0));
                 }
+                if e.port != last_port[l] && last_port[l] != 0 {
+                    broken[l] = false; // a new source port: the socket was replaced, the injected failure is gone
+                }
+                last_port[l] = e.port;
                 if fault_at(l, now, &[0, 1]) || broken[l] {
                     continue; // uplink direction lost
                 }
                 for r in rx.on_datagram(e.addr, &e.bytes, now) {
                     reply_no += 1;
-                    replies.push(Reverse((now + case.rtt_ms[l] as u64, reply_no, e.addr, r)));
+                    replies.push(Reverse((now + case.rtt_ms[l] as u64, reply_no, e.addr, e.port, r)));
                 }
             }
             // teardown / attempt / rejoin monitors
@@ -389,8 +396,11 @@ pub fn check(case: &Case, obs: &mut Obs, which: Which, ctx: &Ctx) -> CheckResult
             continue;
         }
         if replies.peek().is_some_and(|Reverse((t, ..))| *t <= now) {
-            let Reverse((_, _, a, bytes)) = replies.pop().unwrap();
+            let Reverse((_, _, a, dst_port, bytes)) = replies.pop().unwrap();
             let l = a as usize;
+            if sh.idx_of(a).is_some_and(|li| sh.local_port(li) != dst_port) {
+                continue; // addressed to a socket that no longer exists
+            }
             let ty = rc::packet_type(&bytes);
             let handshake = matches!(ty, Some(rc::T_REG2) | Some(rc::T_REG3) | Some(rc::T_REG_NGP) | Some(rc::T_REG_ERR));
             if fault_at(l, now, &[0, 2]) || (handshake && fault_at(l, now, &[3])) || broken[l] {
@@ -448,7 +458,7 @@ pub fn check(case: &Case, obs: &mut Obs, which: Which, ctx: &Ctx) -> CheckResult
                 p[16..20].copy_from_slice(&h.to_be_bytes());
                 if rx.members.contains(&l) {
                     reply_no += 1;
-                    replies.push(Reverse((now + case.rtt_ms[l as usize] as u64 / 2, reply_no, l, p)));
+                    replies.push(Reverse((now + case.rtt_ms[l as usize] as u64 / 2, reply_no, l, last_port[l as usize], p)));
                 }
             }
             continue;
@@ -570,12 +580,16 @@ pub fn check(case: &Case, obs: &mut Obs, which: Which, ctx: &Ctx) -> CheckResult
                 // give the peeked datagrams to the receiver
                 for e in wire_peek {
                     let l = e.addr as usize;
-                    if l >= n || fault_at(l, tnow, &[0, 1]) || broken[l] {
+                    if l >= n {
+                        continue;
+                    }
+                    last_port[l] = e.port;
+                    if fault_at(l, tnow, &[0, 1]) || broken[l] {
                         continue;
                     }
                     for r in rx.on_datagram(e.addr, &e.bytes, tnow) {
                         reply_no += 1;
-                        replies.push(Reverse((tnow + case.rtt_ms[l] as u64, reply_no, e.addr, r)));
+                        replies.push(Reverse((tnow + case.rtt_ms[l] as u64, reply_no, e.addr, e.port, r)));
                     }
                 }
                 let torn_now = (0..n).any(|i| conn2[i] && !sh.st.conns[i].connected);
